@@ -104,7 +104,12 @@ func init() {
 }
 
 func init() {
-	families["C03"] = &rt.Family{Prop: "C03", JudgeBuild: true, Module: "MC_C03", PackSize: 8, More: []rt.Extra{c10More},
+	families["C03"] = &rt.Family{Prop: "C03", JudgeBuild: true, Module: "MC_C03", PackSize: 8, More: []rt.Extra{c10More,
+		// allOf lists in which two branches state the type of one property differently (string / [string, null])
+		{Module: "MC_C11", Frac: frac(0.5, 1), Keep: func(u *rt.Unit) bool {
+			t := fmt.Sprint(u.Raw["schema"], u.Raw["defs"])
+			return u.Str("comb") == "allOf" && containsStr(t, "maxLength") && containsStr(t, "[string null]")
+		}}},
 		Rule: "units = 14 typed position kinds (string, integer, number, boolean, array of integer, object, 5 string formats, 3 non-string types carrying a string format) x nullable x 7 contexts (required/optional property, array item depth 1/2, definition, nested property, typed additionalProperties value); documents = 21 JSON value shapes of every type (null, booleans, integral and non-integral numbers, plain and format strings, arrays, objects) at the position. distinct_nontrivial = distinct (unit, document) pairs with a definite reference verdict"}
 }
 
